@@ -145,6 +145,24 @@ theorem seg_solve_y_for_x_on_line (s : Seg K) (x : K) (h : s.b.x ≠ s.a.x) :
   have ky : ∀ t : K, (s.sample t).y = s.y t := by intro t; geom_ring
   exact ⟨by rw [kx, seg_x_solve_t_for_x s x h], ky _⟩
 
+/-! ### squared length under split / flip (no square root: exact over any field) -/
+
+/-- the left piece of `split(t)` has `t²` times the squared length -/
+theorem seg_sqLength_split_left (s : Seg K) (t : K) :
+    (s.split t).1.sqLength = t * t * s.sqLength := by
+  geom_ring
+/-- the right piece has `(1 − t)²` times the squared length -/
+theorem seg_sqLength_split_right (s : Seg K) (t : K) :
+    (s.split t).2.sqLength = (1 - t) * (1 - t) * s.sqLength := by
+  geom_ring
+/-- flipping keeps the squared length -/
+theorem seg_sqLength_flip (s : Seg K) : s.flip.sqLength = s.sqLength := by
+  geom_ring
+/-- a sub-range `a..b` has `(b − a)²` times the squared length -/
+theorem seg_sqLength_split_range (s : Seg K) (a b : K) :
+    (s.splitRange a b).sqLength = (b - a) * (b - a) * s.sqLength := by
+  geom_ring
+
 /-! non-vacuity: a concrete slanted segment meets the hypotheses and the laws compute -/
 example : (⟨⟨1, 2⟩, ⟨5, 4⟩⟩ : Seg ℚ).b.x ≠ (⟨⟨1, 2⟩, ⟨5, 4⟩⟩ : Seg ℚ).a.x := by norm_num
 example : (⟨⟨1, 2⟩, ⟨5, 4⟩⟩ : Seg ℚ).solveTForX 2 = 1 / 4 := by
